@@ -65,8 +65,17 @@ struct Impl {
   csg::Topology top;
   std::unique_ptr<BC> direct;
   int route;
-  Impl(const Box &B, const std::string &type, int route_) : route(route_) {
+  // prior: the topology already carried another box before (history of a trajectory whose box changes class):
+  // 1 orthorhombic, 2 triclinic, 3 open; the answers for the current box must not depend on it
+  Impl(const Box &B, const std::string &type, int route_, int prior = 0) : route(route_) {
     BC::eBoxtype t = type_of(type);
+    if (prior == 1) top.setBox(Eigen::Vector3d(3.0, 4.0, 5.0).asDiagonal());
+    if (prior == 2) {
+      Eigen::Matrix3d P;
+      P << 3.0, 1.0, -1.0, 0.0, 4.0, 1.5, 0.0, 0.0, 5.0;
+      top.setBox(P);
+    }
+    if (prior == 3) top.setBox(Eigen::Matrix3d::Zero());
     if (route == 2 && t != BC::typeAuto) {
       std::unique_ptr<BC> b;
       if (t == BC::typeOrthorhombic) b = std::make_unique<csg::OrthorhombicBox>();
@@ -149,7 +158,8 @@ static Result run_mic(const json &c) {
     p1 = pos_of(B, c.at("f1"), c.at("n1"));
     p2 = pos_of(B, c.at("f2"), c.at("n2"));
   }
-  Impl impl(B, type, route);
+  Impl impl(B, type, route, c.value("prior", 0));
+  if (c.value("prior", 0) > 0 && route != 2) r.cls("topology-had-another-box-before");
   r.cls("class=" + K);
   r.cls(type == "auto" ? "type=auto" : "type=explicit");
   r.cls(impl.direct ? "route=class+Clone" : impl.route == 1 ? "route=getDist" : "route=BCShortestConnection");
@@ -269,6 +279,7 @@ static json gen_periodic(int kind) {
   c["box"] = gen_box(kind);
   c["type"] = gen_type(kind);
   c["route"] = ri(0, 2);
+  c["prior"] = rbool(30) ? ri(1, 3) : 0;
   int regime = pick<int>({0, 1, 1, 2, 2, 2});
   c["f1"] = gen_frac();
   c["n1"] = gen_shifts_regime(regime);
@@ -319,6 +330,7 @@ static json gen_open() {
   c["box"] = gen_box(k == 2 ? ri(1, 2) : 0);
   c["type"] = k == 0 ? "auto" : "open";
   c["route"] = ri(0, 2);
+  c["prior"] = rbool(30) ? ri(1, 3) : 0;
   auto coord = [] {
     int m = ri(0, 3);
     double s = rbool() ? 1.0 : -1.0;
@@ -338,7 +350,7 @@ static Result run_volume(const json &c) {
   Box B = box_from(c.at("box"));
   std::string type = c.at("type");
   std::string K = class_of(B, type);
-  Impl impl(B, type, c.at("route"));
+  Impl impl(B, type, c.at("route"), c.value("prior", 0));
   r.cls("class=" + K);
   r.cls(type == "auto" ? "type=auto" : "type=explicit");
   ld D = fabsl(det(B));
@@ -372,6 +384,7 @@ static json gen_volume() {
   else
     c["type"] = gen_type(kind);
   c["route"] = ri(0, 2);
+  c["prior"] = rbool(30) ? ri(1, 3) : 0;
   return c;
 }
 
